@@ -978,8 +978,41 @@ pub fn pattern_strategy(o: &GenOpts) -> BoxedStrategy<Vec<Stmt>> {
         s.push(Stmt::Mul(rel(3), rel(0)));
         s
     });
+    // --- select provenance: sel = select(b, t, s) with a recomposed branch, optionally tied
+    //     back to one of its own branches by `connect`, then decomposed into coefficients
+    //     (coefficient-wise select shortcut of `decompose_ext_to_base_coeffs`)
+    let selprov = (any::<bool>(), val_strategy(), co_strategy(), 0u8..3, any::<bool>(), any::<bool>())
+        .prop_map(move |(bit, vt, cv, tie, swap, nest)| {
+            let last_base = REL_BASE - 1;
+            let b = Val(vec![if bit { Co::One } else { Co::Z }]);
+            let mut s = vec![
+                Stmt::Public(b),
+                Stmt::Public(vt),
+                Stmt::Public(Val(vec![cv])),
+                Stmt::ExtRecomp(vec![last_base; 5]),
+            ];
+            // b=rel(3) t=rel(2) c=rel(1) s=rel(0)
+            if swap {
+                s.push(Stmt::Select(rel(3), rel(0), rel(2)));
+            } else {
+                s.push(Stmt::Select(rel(3), rel(2), rel(0)));
+            }
+            // b=rel(4) t=rel(3) c=rel(2) s=rel(1) sel=rel(0)
+            match tie {
+                1 => s.push(Stmt::Connect(rel(0), rel(3))),
+                2 => s.push(Stmt::Connect(rel(0), rel(1))),
+                _ => {}
+            }
+            if nest {
+                // a select over the select: sel2 = select(b, sel, t)
+                s.push(Stmt::Select(rel(4), rel(0), rel(3)));
+            }
+            s.push(Stmt::ExtDecomp(rel(0)));
+            s.push(Stmt::Add(rel(0), rel(1)));
+            s
+        });
     if o.allow_hints && o.allow_ext {
-        prop_oneof![4 => dedup, 4 => fusion, 1 => heal].boxed()
+        prop_oneof![4 => dedup, 4 => fusion, 1 => heal, 2 => selprov].boxed()
     } else {
         // the `heal` pattern recomposes coefficients; generators without ext statements skip it
         prop_oneof![dedup, fusion].boxed()
